@@ -359,10 +359,11 @@ func (h *DropSeries) Process() (codec.BinaryCodec, error) {
 			if err != nil {
 				return h.rsp, err
 			}
+			engine.FlushMemTable(shard)
 			index := shard.GetIndexBuilder().GetPrimaryIndex()
 			idsResult, e := index.SearchSeriesByTableAndCond(mstName, expr, t)
 			if e != nil {
-				return h.rsp, err
+				return h.rsp, e
 			}
 
 			err = storeTsids(idsResult, dbptInfo, metaClient, shard)
